@@ -16,14 +16,34 @@ Local Open Scope Z_scope.
 
 Inductive acls : Type := AOk | ADrop | ARetry.
 
-(* xhttp.Client.DoTimeout: an answer is a success iff 200 <= status <= 202 *)
+(* an answer of the far end is one number a = status + 1000 * body class (a < 1000: the historical body {"code":0}).
+   Body classes (harness/c09/route.go rBodies): 0 {"code":0}; 1 not JSON at all; 2 elasticsearch bulk answer with
+   "errors":true and per-item errors; 3 "errors":true with empty "items"; 4 "errors":true, items without "index" / with a
+   status >= 400 and no "error"; 5 "errors":false *)
+Definition a_status (a : Z) : Z := a mod 1000.
+Definition a_body (a : Z) : Z := a / 1000.
+
+(* xhttp.Client.DoTimeout: an answer is a success iff 200 <= status <= 202 ... *)
 Definition ok2xx (s : Z) : bool := (200 <=? s) && (s <=? 202).
 
-Definition classify (kind s : Z) : acls :=
+(* ... and, when the plugin passes a processResponse function, iff that function accepts the body:
+   elasticsearch with process_response (reportESErrors): everything that decodes as JSON is accepted — indexing errors
+   reported by elasticsearch are logged and the batch counts as delivered; a body that does not decode is an error
+   (with the 2xx status, which out() retries).  splunk (parseSplunkError): a JSON object with "code" <= 0.
+   http passes no function; loki / the connection-oriented kinds never look at a body. *)
+Definition body_ok (kind : Z) (presp : bool) (b : Z) : bool :=
+  if kind =? 0 then negb presp || negb (b =? 1)
+  else if kind =? 2 then b =? 0
+  else true.
+
+Definition classify (kind : Z) (presp : bool) (a : Z) : acls :=
+  let s := a_status a in
   if (kind =? 0) || (kind =? 1) then          (* elasticsearch.go / http.go out(): 400 and 413 are not retried *)
-    if ok2xx s then AOk else if (s =? 400) || (s =? 413) then ADrop else ARetry
+    if ok2xx s then (if body_ok kind presp (a_body a) then AOk else ARetry)
+    else if (s =? 400) || (s =? 413) then ADrop else ARetry
   else if kind =? 2 then                      (* splunk.go out(): only 400 is not retried *)
-    if ok2xx s then AOk else if s =? 400 then ADrop else ARetry
+    if ok2xx s then (if body_ok kind presp (a_body a) then AOk else ARetry)
+    else if s =? 400 then ADrop else ARetry
   else if kind =? 3 then                      (* loki.go send(): success is 204 and nothing else; out(): 400 is not retried *)
     if s =? 204 then AOk else if s =? 400 then ADrop else ARetry
   else                                        (* socket / clickhouse / gelf: connected and written, or an error *)
@@ -37,12 +57,18 @@ Definition next (s : src) : Z * src :=
   | x :: r => (x, {| pre := r; tail := tail s |})
   end.
 
+(* a far end that gives the same answer for ever *)
+Definition const_src (a : Z) : src := {| pre := []; tail := a |}.
+
 (* what the fake HTTP server counts: requests that reached it (a refused connection does not; the connection-oriented
    far ends do not count) *)
 Definition seen (kind st : Z) : nat := if (kind <=? 3) && negb (st =? 0) then 1%nat else 0%nat.
 
+(* presp: elasticsearch's process_response option (bit 0 of the optional 12th element of a case; the other bits are
+   options the way of a batch must NOT depend on: gzip, authorisation, ingest pipeline, index name pattern, event size,
+   TLS — the specification ignores them) *)
 Record rcfg : Type := {
-  kind : Z; dq : bool; retry : Z; fatal : bool; strict : bool; split : bool; bsize : nat; nbatch : nat }.
+  kind : Z; dq : bool; retry : Z; fatal : bool; strict : bool; split : bool; bsize : nat; nbatch : nat; presp : bool }.
 
 Definition strict_on (c : rcfg) : bool := strict c && (kind c <=? 1).
 Definition split_on (c : rcfg) : bool := split c && (kind c <=? 1).
@@ -50,37 +76,38 @@ Definition split_on (c : rcfg) : bool := split c && (kind c <=? 1).
 (* sendSplit(left, right) of elasticsearch.go / http.go on cnt = right - left events: one request; on 413 with more than
    one event the halves [left, middle) and [middle, right), middle = (left + right) / 2, the second only when the first
    succeeded.  Result: (status, failed?, requests seen, rest of the script) *)
-Fixpoint send_split (fuel : nat) (k : Z) (cnt : nat) (s : src) : option (Z * bool * nat * src) :=
+Fixpoint send_split (fuel : nat) (k : Z) (pr : bool) (cnt : nat) (s : src) : option (Z * bool * nat * src) :=
   match fuel with
   | O => None
   | S f =>
       if Nat.eqb cnt 0 then Some (200, false, 0%nat, s) else
-      let '(st, s1) := next s in
-      if ok2xx st then Some (200, false, seen k st, s1)
+      let '(a, s1) := next s in
+      let st := a_status a in
+      if ok2xx st && body_ok k pr (a_body a) then Some (200, false, seen k st, s1)
       else if (st =? 413) && Nat.ltb 1 cnt then
         let mid := Nat.div2 cnt in
-        match send_split f k mid s1 with
+        match send_split f k pr mid s1 with
         | None => None
         | Some (st1, true, n1, s2) => Some (st1, true, (seen k st + n1)%nat, s2)
         | Some (_, false, n1, s2) =>
-            match send_split f k (cnt - mid) s2 with
+            match send_split f k pr (cnt - mid) s2 with
             | None => None
             | Some (st2, e2, n2, s3) => Some (st2, e2, (seen k st + n1 + n2)%nat, s3)
             end
         end
-      else Some (st, true, seen k st, s1)
+      else Some (st, true, seen k st, s1)   (* a 2xx whose body the plugin rejects: error with the 2xx status *)
   end.
 
 (* one call of the plugin's out() on a batch of bsize events: class, requests seen, rest of the script *)
 Definition attempt (c : rcfg) (s : src) : option (acls * nat * src) :=
   if split_on c then
-    match send_split (S (bsize c)) (kind c) (bsize c) s with
+    match send_split (S (bsize c)) (kind c) (presp c) (bsize c) s with
     | None => None
     | Some (st, err, n, s') =>
         Some (if err then (if (st =? 400) || (st =? 413) then ADrop else ARetry) else AOk, n, s')
     end
   else
-    let '(st, s') := next s in Some (classify (kind c) st, seen (kind c) st, s').
+    let '(a, s') := next s in Some (classify (kind c) (presp c) a, seen (kind c) (a_status a), s').
 
 (* the way a batch goes *)
 Inductive way : Type :=
@@ -169,15 +196,22 @@ Definition one_way_ok (c : rcfg) (o : sx) : bool :=
   end.
 
 (* ---- glue ---------------------------------------------------------------------------------------------------- *)
+Definition rcase_mk (k : Z) (d : sx) (r : Z) (f st sp b nb p : sx) (tl eopts : Z) : option (rcfg * src) :=
+  match as_bool d, as_bool f, as_bool st, as_bool sp, as_nat b, as_nat nb, as_list as_Z p with
+  | Some d', Some f', Some st', Some sp', Some b', Some nb', Some p' =>
+      if 0 <=? eopts then
+        Some ({| kind := k; dq := d'; retry := r; fatal := f'; strict := st'; split := sp'; bsize := b'; nbatch := nb';
+                 presp := Z.odd eopts && (k =? 0) |},
+              {| pre := p'; tail := tl |})
+      else None
+  | _, _, _, _, _, _, _ => None
+  end.
+
+(* 11 elements: the historical case (no options); 12: + the option bits *)
 Definition rcase_of_sx (cs : sx) : option (rcfg * src) :=
   match cs with
-  | SL [SZ k; d; SZ r; f; st; sp; SZ _workers; b; nb; p; SZ tl] =>
-      match as_bool d, as_bool f, as_bool st, as_bool sp, as_nat b, as_nat nb, as_list as_Z p with
-      | Some d', Some f', Some st', Some sp', Some b', Some nb', Some p' =>
-          Some ({| kind := k; dq := d'; retry := r; fatal := f'; strict := st'; split := sp'; bsize := b'; nbatch := nb' |},
-                {| pre := p'; tail := tl |})
-      | _, _, _, _, _, _, _ => None
-      end
+  | SL [SZ k; d; SZ r; f; st; sp; SZ _workers; b; nb; p; SZ tl] => rcase_mk k d r f st sp b nb p tl 0
+  | SL [SZ k; d; SZ r; f; st; sp; SZ _workers; b; nb; p; SZ tl; SZ eopts] => rcase_mk k d r f st sp b nb p tl eopts
   | _ => None
   end.
 
